@@ -222,6 +222,25 @@ func runC20(c *core.Ctx, o Options) {
 			}
 			fa, ok := st.Addr.(*ssa.FieldAddr)
 			if !ok {
+				// a store through a pointer kept in a field of a library object (*p.counter = …) writes memory that is as
+				// shared as the object; it needs a lock on that object like a field store
+				if ld, isLd := st.Addr.(*ssa.UnOp); isLd && ld.Op == token.MUL {
+					if pfa, isF := ld.X.(*ssa.FieldAddr); isF {
+						pf := an.FieldOf(pfa)
+						pn := an.NamedOf(pfa.X.Type())
+						if pf != nil && pn != nil && pn.Obj().Pkg() != nil && strings.HasPrefix(pn.Obj().Pkg().Path(), core.ModPath) && !an.IsConstructorBase(pfa.X, fn) && !isLocalStruct(pfa.X) {
+							ls := la.At[st]
+							held := false
+							for id := range ls {
+								if id.Base == an.Render(pfa.X) {
+									held = true
+								}
+							}
+							c.Check(held, "complete", an.NameOf(fn), "store through pointer field "+fieldOwner(pf)+"."+pf.Name(), st.Pos(), "a lock of the same object is held: "+ls.String(),
+								"memory reached through "+fieldOwner(pf)+"."+pf.Name()+" is written in "+an.NameOf(fn)+" with no lock of that object held (lockset "+ls.String()+"): concurrent callers race on it")
+						}
+					}
+				}
 				return
 			}
 			f := an.FieldOf(fa)
@@ -308,6 +327,23 @@ func runC20(c *core.Ctx, o Options) {
 				c.Check(ls.Holds(hmu, "h", an.ModeW), "message-lock", an.NameOf(fn), what+" under DefaultHandler.mu", call.Pos(), "held: "+ls.String(),
 					an.NameOf(fn)+" "+what+" without DefaultHandler.mu (lockset "+ls.String()+"): a ResendRequest served meanwhile serializes the same stored object under that mutex — two goroutines write one message")
 			})
+		}
+		// and nothing outside the handler serializes an outgoing message: package session hands messages to the handler (Send /
+		// SendBatch), which serializes them under its mutex
+		if sp := c.SSAPkg("session"); sp != nil {
+			for _, fn := range pkgFuncs(sp) {
+				an.AllInstrs(fn, func(in ssa.Instruction) {
+					call, ok := in.(*ssa.Call)
+					if !ok || !call.Call.IsInvoke() || call.Call.Method.Name() != "ToBytes" {
+						return
+					}
+					t := call.Call.Value.Type()
+					if an.TypeIs(t, "simplefix-go", "SendingMessage") || an.TypeIs(t, "messages", "Message") || an.TypeIs(t, "messages", "Builder") {
+						c.Ob("message-lock", an.NameOf(fn), "serializes a message outside the handler", call.Pos()).Fail(
+							"%s calls ToBytes on a message itself: ToBytes rewrites the object, and the handler serializes stored and outgoing messages only under DefaultHandler.mu — this call races with a send or resend of the same object", an.NameOf(fn))
+					}
+				})
+			}
 		}
 		c.Check(n >= 2, "message-lock", "", "message operations on the handler's send path found", token.NoPos, fmt.Sprint(n), fmt.Sprintf("only %d found (a Range call and ToBytes at least)", n))
 	}
